@@ -10,14 +10,12 @@ the model `Witverif.Text.Ident` over the escape table **extracted on every run**
 checks that import), the heck model, and the spec table `CppKeywords.keywords23`.
 g++ is used by the check only to validate the model's predictions and to search for failing inputs.
 
-Full statement that is FALSE of the current code (negation proved with concrete witnesses,
-reproduced with g++ -std=c++23 on the real generator's output):
+`to_cpp_ident_not_keyword` now holds in full (repaired in /repo by `fix:` commit 89692d8: the table is
+looked up on the snake-cased name; before the repair it was false for keywords containing `_`, e.g.
+`not-eq` ↦ `not_eq`, and for keywords written in upper case in WIT, `IF` ↦ `if`).
 
-    to_cpp_ident_not_keyword : ∀ n, WitName n → toCIdent n ∉ keywords23
-        false: the table is matched against the WIT (kebab-case) spelling, so
-        * keywords that contain `_` can never match: `not-eq` ↦ `not_eq`, `static-cast`, `co-await`, … (the
-          arms `"not_eq"`, `"static_cast"`, … are dead: no WIT identifier contains `_`)
-        * keywords written in upper case in WIT are lower-cased after the match: `IF` ↦ `if`
+Still FALSE of the current code (negation proved with a concrete witness, reproduced with g++):
+the Pascal-case path (types, functions, cases) is not injective modulo case: `a1` / `a-1`.
 -/
 namespace Witverif.Props.C31
 open Witverif.Text Witverif.Text.Ident Witverif.Text.Heck Witverif.Text.PkgSpec Witverif.Text.PkgPath
@@ -25,7 +23,13 @@ open Witverif.Text.CppKeywords Witverif.Generated.CppIdent
 
 abbrev WitName (n : List Char) : Prop := validName n = true
 
-/-! ## Facts about the extracted table (re-decided whenever the source changes) -/
+/-! ## Facts about the extracted source (re-decided whenever the source changes) -/
+
+/-- the table is looked up on the snake-cased name (`match name.to_snake_case().as_str()`) -/
+theorem lookup_on_snake : matchOnSnake = true := by decide
+
+theorem toCIdent_eq (n : List Char) : toCIdent n = escapeIdentS escapeTable n := by
+  simp [toCIdent, escapeBy, lookup_on_snake]
 
 theorem table_values_not_keywords : ∀ e ∈ escapeTable, e.2 ∉ keywords23 := by decide +kernel
 
@@ -34,66 +38,39 @@ theorem table_values_injective :
 
 theorem table_values_end_us : ∀ e ∈ escapeTable, e.2.getLast? = some '_' := by decide +kernel
 
-/-- every C++23 keyword (and alternative token) without `_` and without upper-case letters is an arm
-of the table — no exception list is needed -/
+/-- every C++23 keyword and alternative token (with or without `_`) is an arm of the table -/
 theorem table_covers_keywords : ∀ k ∈ keywords23,
-    (lookupT escapeTable k).isSome = true ∨ k ∈ ([] : List (List Char)) ∨
-      (∃ c ∈ k, isAsciiUpper c = true ∨ c = '_') := by decide +kernel
-
-/-- the arms whose key contains `_` can never be selected by a WIT identifier -/
-theorem dead_arms : ∀ e ∈ escapeTable, '_' ∈ e.1 → validName e.1 = false := by decide +kernel
+    (lookupT escapeTable k).isSome = true ∨ ∃ c ∈ k, isAsciiUpper c = true := by decide +kernel
 
 /-! ## Keywords -/
 
-/-- Exact characterisation for every WIT identifier. -/
-theorem to_cpp_ident_keyword_iff (n : List Char) (h : WitName n) :
-    toCIdent n ∈ keywords23 ↔ lookupT escapeTable n = none ∧ n.map lowSep ∈ keywords23 :=
-  escape_keyword_iff escapeTable keywords23 table_values_not_keywords n h
+/-- **`to_cpp_ident_not_keyword` (full statement)**: for every WIT identifier the emitted C++
+identifier is not a C++23 keyword or alternative token. -/
+theorem to_cpp_ident_not_keyword (n : List Char) (h : WitName n) : toCIdent n ∉ keywords23 := by
+  rw [toCIdent_eq]
+  exact escapeS_not_keyword escapeTable keywords23 table_values_not_keywords table_covers_keywords n
+    (snake_valid_not_upper n h)
 
-def NotKeywordFull : Prop := ∀ n, WitName n → toCIdent n ∉ keywords23
+/-- the same for snake-case package module names (namespace component) -/
+theorem to_cpp_ident_module_name_not_keyword (m : List Char) (h : usSimple m = true) :
+    toCIdent m ∉ keywords23 := by
+  rw [toCIdent_eq]
+  exact escapeS_not_keyword escapeTable keywords23 table_values_not_keywords table_covers_keywords m
+    (snake_usSimple_not_upper m h)
 
-/-- witness 1 (class `cpp-ident-keyword-kebab`): `not-eq` becomes the alternative token `not_eq` -/
-theorem kebab_keyword_is_emitted :
-    WitName "not-eq".toList ∧ toCIdent "not-eq".toList = "not_eq".toList ∧ "not_eq".toList ∈ keywords23 ∧
-    WitName "static-cast".toList ∧ toCIdent "static-cast".toList = "static_cast".toList := by decide +kernel
-
-/-- witness 2 (class `cpp-ident-keyword-uppercase`): `IF` becomes `if` -/
-theorem uppercase_keyword_is_emitted :
-    WitName "IF".toList ∧ toCIdent "IF".toList = "if".toList ∧ "if".toList ∈ keywords23 := by decide +kernel
-
-theorem to_cpp_ident_not_keyword_full_false : ¬ NotKeywordFull := by
-  intro h
-  exact h _ kebab_keyword_is_emitted.1 (kebab_keyword_is_emitted.2.1 ▸ kebab_keyword_is_emitted.2.2.1)
-
-/-- **Partial form**: a WIT identifier without upper-case letters and without `-` never becomes a
-C++23 keyword or alternative token. -/
-theorem to_cpp_ident_not_keyword_partial (n : List Char) (h : WitName n)
-    (hl : ∀ c ∈ n, isAsciiUpper c = false) (hd : '-' ∉ n) : toCIdent n ∉ keywords23 :=
-  escape_not_keyword_lower escapeTable keywords23 [] table_values_not_keywords
-    table_covers_keywords n h hl hd (by simp)
-
-/-- the only causes of a keyword hit: an upper-case letter or a `-` in the WIT identifier -/
-theorem keyword_hit_causes (n : List Char) (h : WitName n) (hk : toCIdent n ∈ keywords23) :
-    (∃ c ∈ n, isAsciiUpper c = true) ∨ '-' ∈ n := by
-  by_cases hu : ∃ c ∈ n, isAsciiUpper c = true
-  · exact Or.inl hu
-  · right
-    have hl : ∀ c ∈ n, isAsciiUpper c = false := by
-      intro c hc
-      cases hx : isAsciiUpper c
-      · rfl
-      · exact absurd ⟨c, hc, hx⟩ hu
-    by_cases hd : '-' ∈ n
-    · exact hd
-    · exact absurd hk (to_cpp_ident_not_keyword_partial n h hl hd)
+/-- the former witnesses are escaped now -/
+theorem former_keyword_witnesses_escaped :
+    toCIdent "not-eq".toList = "not_eq_".toList ∧ toCIdent "static-cast".toList = "static_cast_".toList ∧
+    toCIdent "IF".toList = "if_".toList := by decide +kernel
 
 /-! ## Collisions -/
 
 /-- **`cpp_names_injective`**: WIT identifiers that differ modulo letter case (which the component
 model guarantees inside one scope) get different C++ identifiers. -/
 theorem cpp_names_injective_mod_case (a b : List Char) (ha : WitName a) (hb : WitName b)
-    (h : toCIdent a = toCIdent b) : a.map lowA = b.map lowA :=
-  escape_injective_mod_case escapeTable table_values_injective table_values_end_us a b ha hb h
+    (h : toCIdent a = toCIdent b) : a.map lowA = b.map lowA := by
+  rw [toCIdent_eq, toCIdent_eq] at h
+  exact escapeS_injective_mod_case escapeTable table_values_injective table_values_end_us a b ha hb h
 
 theorem cpp_names_injective (a b : List Char) (ha : WitName a) (hb : WitName b)
     (hne : a.map lowA ≠ b.map lowA) : toCIdent a ≠ toCIdent b :=
@@ -109,10 +86,11 @@ theorem pascal_collision :
 
 /-- `to_c_ident` applied to package module names (already snake case) is injective -/
 theorem module_name_mangling_injective (x y : List Char) (hx : usSimple x = true) (hy : usSimple y = true)
-    (h : toCIdent x = toCIdent y) : x = y :=
-  escape_injective_usSimple escapeTable table_values_injective table_values_end_us x y hx hy h
+    (h : toCIdent x = toCIdent y) : x = y := by
+  rw [toCIdent_eq, toCIdent_eq] at h
+  exact escapeS_injective_usSimple escapeTable table_values_injective table_values_end_us x y hx hy h
 
-/-- … and here the table *does* apply to names with `_`: a package called `not-eq` gets namespace `not_eq_` -/
+/-- a package called `not-eq` gets namespace `not_eq_` -/
 theorem module_name_escaped : toCIdent "not_eq".toList = "not_eq_".toList := by decide +kernel
 
 /-- **Namespace mangling is injective**: distinct (package, interface) pairs get distinct
@@ -144,8 +122,8 @@ theorem cpp_namespace_paths_distinct_partial (pkgs : List Pkg) (p q : Pkg) (i j 
 example : toCIdent "class".toList = "class_".toList ∧ toCIdent "foo-bar".toList = "foo_bar".toList ∧
     toCIdent "ret".toList = "ret_".toList := by decide +kernel
 
-example : toCIdent "namespace".toList ∉ keywords23 :=
-  to_cpp_ident_not_keyword_partial _ (by decide) (by decide) (by decide)
+example : toCIdent "namespace".toList ∉ keywords23 := to_cpp_ident_not_keyword _ (by decide)
+example : toCIdent "CO-await".toList ∉ keywords23 := to_cpp_ident_not_keyword _ (by decide)
 
 example : toCIdent "get-value".toList ≠ toCIdent "get-values".toList :=
   cpp_names_injective _ _ (by decide) (by decide) (by decide)
